@@ -116,3 +116,11 @@ pub fn retire_socket(s: std::net::UdpSocket) {
         g.pop_front();
     }
 }
+
+/// A sandbox directory no earlier case of this process has used: a straggling worker of an earlier case (an abandoned
+/// upload removes its file half a minute later) must never act on the tree of a later one.
+pub fn fresh_sandbox(dir: &std::path::Path) -> std::path::PathBuf {
+    static N: std::sync::atomic::AtomicUsize = std::sync::atomic::AtomicUsize::new(0);
+    let k = N.fetch_add(1, std::sync::atomic::Ordering::SeqCst);
+    dir.join(format!("sb{k:03}"))
+}
